@@ -26,6 +26,13 @@ def _is_name(n, name):
 
 def _frob_exponent(node):
     """2**E  ->  name of the Coq menu entry giving TWICE the exponent."""
+    if isinstance(node, ast.BinOp) and isinstance(node.op, ast.LShift) and isinstance(node.left, ast.Constant) \
+            and node.left.value == 1:
+        e = node.right                                   # 1 << E  ==  2**E for a non-negative integer E
+        if isinstance(e, ast.BinOp) and isinstance(e.op, ast.FloorDiv) and _is_name(e.left, "n_qubits") \
+                and isinstance(e.right, ast.Constant) and e.right.value == 2:
+            return "x2_floor_half"
+        raise TranslateError("frob_factor: unsupported shift amount %s" % ast.unparse(e))
     if not (isinstance(node, ast.BinOp) and isinstance(node.op, ast.Pow)
             and isinstance(node.left, ast.Constant) and node.left.value == 2):
         raise TranslateError("frob_factor is not of the form 2**E: %s" % _dump(node))
@@ -176,6 +183,11 @@ def extract_trim(repo):
     if not (hp and hc):
         raise TranslateError("is_bitflip_gate: modulus / offset are not multiples of pi")
     t["odd_mod"], t["odd_off"] = units_of_pi8(m, "modulus"), units_of_pi8(c, "offset")
+    names = [a.arg for a in bf.args.args]
+    if names != ["gate", "atol"] or len(bf.args.defaults) != 1 or not isinstance(bf.args.defaults[0], ast.Constant) \
+            or not isinstance(bf.args.defaults[0].value, float):
+        raise TranslateError("is_bitflip_gate: signature is not (gate, atol=<float>)")
+    t["atol"] = bf.args.defaults[0].value
     tr = [n for n in bf.body if isinstance(n, ast.If)][1]
     # the try: float(gate.parameter) except (TypeError, ValueError): return False
     trys = [n for n in rot.body if isinstance(n, ast.Try)]
@@ -351,13 +363,40 @@ def extract_taper(repo):
     return {"cull": cull, "cull_src": sel}
 
 
+SECTIONS = (("frob", extract_frobenius), ("trim", extract_trim), ("mf", extract_multiform), ("taper", extract_taper))
+
+# Last-known-good tables (the repaired tree).  Used ONLY when a section of the source is no longer recognised, so
+# that the check can go on searching a concrete failing input (model correspondence against these tables and the
+# implementation-only oracles); the unrecognised section is reported as a translator failure in any case.
+FALLBACK = {
+    "frob": {"x2": "x2_true_half", "x2_src": "2 ** (n_qubits / 2)  [FALLBACK]", "keep": "cmp_sqrt_gt",
+             "keep_src": "sqrt(coef2_sum) > epsilon / frob_factor  [FALLBACK]"},
+    "trim": {"bf_plain": ["X", "Y"], "bf_rot": ["RX", "RY"], "odd_mod": 16, "odd_off": 8, "atol": 1e-5,
+             "s1_phase": ["RZ", "Z"], "s1_phase_state": False, "s1_flip": ["RX", "X"], "s1_flip_state": True,
+             "s2_g1_phase": ["RZ", "Z"], "s2_pp_g0": ["RZ", "Z"], "s2_pp_state": False,
+             "s2_g1_flip": ["RX", "X"], "s2_ff_g0": ["RX", "X"], "s2_ff_state": False,
+             "s2_pf_g0": ["RZ", "Z"], "s2_pf_state": True},
+    "mf": {"c_calc": [[0, 0, 0, 0], [0, 0, 1, 3], [0, 3, 0, 1], [0, 1, 3, 0]],
+           "convert": [("I", 0, False, False), ("Z", 1, False, True), ("X", 2, True, False), ("Y", 3, True, True)]},
+    "taper": {"cull": True, "cull_src": "np.logical_not(commutes)  [FALLBACK]"},
+}
+
+
 def extract(repo):
-    t = {}
-    t["frob"] = extract_frobenius(repo)
-    t["trim"] = extract_trim(repo)
-    t["mf"] = extract_multiform(repo)
-    t["taper"] = extract_taper(repo)
-    return t
+    """Strict: any unrecognised shape raises TranslateError."""
+    return {name: fn(repo) for name, fn in SECTIONS}
+
+
+def extract_with_fallback(repo):
+    """(tables, errors): sections that are not recognised come from FALLBACK and are named in `errors`."""
+    t, errors = {}, {}
+    for name, fn in SECTIONS:
+        try:
+            t[name] = fn(repo)
+        except TranslateError as e:
+            errors[name] = str(e)
+            t[name] = dict(FALLBACK[name])
+    return t, errors
 
 
 def _b(x):
@@ -382,7 +421,7 @@ def emit(t):
     L.append("    %s %s %s" % (coq_string_list(tr["s2_g1_phase"]), coq_string_list(tr["s2_pp_g0"]), _b(tr["s2_pp_state"])))
     L.append("    %s %s %s %s %s." % (coq_string_list(tr["s2_g1_flip"]), coq_string_list(tr["s2_ff_g0"]), _b(tr["s2_ff_state"]),
                                      coq_string_list(tr["s2_pf_g0"]), _b(tr["s2_pf_state"])))
-    L.append("(* abs(p mod m - c) <= atol, in units of pi/8 *)")
+    L.append("(* abs(p mod m - c) <= atol, in units of pi/8; default atol = %r *)" % tr["atol"])
     L.append("Definition gen_odd_mod : Z := (%d)%%Z.\nDefinition gen_odd_off : Z := (%d)%%Z.\n" % (tr["odd_mod"], tr["odd_off"]))
     L.append("Definition gen_c_calc : list (list Z) :=\n  [%s]%%Z." % "; ".join(
         "[" + "; ".join(str(x) for x in row) + "]" for row in mf["c_calc"]))
